@@ -9,8 +9,8 @@
 (*   event: [a |-> "S", op, argc, ifasm, rec, ifd, std, sed, svd, phd, seg, tagd, errs]   a = "RESET": new pass *)
 EXTENDS NegSpace, Json, IOUtils
 
-VARIABLES p, l
-vars == <<p, l>>
+VARIABLES p, l, bad
+vars == <<p, l, bad>>
 
 TraceLog == ndJsonDeserialize(IOEnv.TRACE)
 
@@ -23,9 +23,9 @@ Eff(op) == IF op \in OpNames THEN Op(op).e ELSE "none"       \* machine instruct
 Grp(op) == IF op \in OpNames THEN Op(op).g ELSE "insn"
 
 \* one counter under an opener (+) / closer (-) / neither; a closer at depth 0 of a live statement must be reported
-Delta(a, b, e, plus, minus, live, erra, errb) ==
+Delta(a, b, e, plus, minus, must, erra, errb) ==
   IF e = plus THEN b \in {a, a + 1}
-  ELSE IF e = minus THEN IF a = 0 THEN b = 0 /\ (live => errb > erra) ELSE b \in {a, a - 1}
+  ELSE IF e = minus THEN IF a = 0 THEN b = 0 /\ (must => errb > erra) ELSE b \in {a, a - 1}
   ELSE b = a
 
 Allowed(a, ev) ==
@@ -36,7 +36,8 @@ Allowed(a, ev) ==
      /\ IF a.rec
         THEN \* the line was swallowed by a recorder: nothing but the recorder itself may change
              /\ b.ifd = a.ifd /\ b.std = a.std /\ b.sed = a.sed /\ b.svd = a.svd /\ b.ifasm = a.ifasm
-             /\ b.errs = a.errs
+             /\ (b.errs = a.errs \/ ev.argc >= AMAX            \* SplitLine: TooManyArgs is reported for every line
+                                  \/ ev.op \in {"ENDM", "ENDR"})  \* closing the recorder evaluates REPT/WHILE/IRP heads
         ELSE /\ (b.rec => e = "rec")                                  \* only MACRO IRP IRPN IRPC REPT WHILE open one
              /\ IF e \in {"if+", "sw+"} THEN b.ifd = a.ifd + 1
                 ELSE IF e \in {"if-", "sw-"} THEN (IF a.ifd = 0 THEN b.ifd = 0 /\ b.errs > a.errs ELSE b.ifd \in {a.ifd, a.ifd - 1})
@@ -47,15 +48,19 @@ Allowed(a, ev) ==
              /\ Delta(a.std, b.std, e, "st+", "st-", live, a.errs, b.errs)
              /\ Delta(a.sed, b.sed, e, "se+", "se-", live, a.errs, b.errs)
              /\ Delta(a.svd, b.svd, e, "sv+", "sv-", live, a.errs, b.errs)
-             /\ (b.seg = a.seg /\ e # "sv-" => Delta(a.phd, b.phd, e, "ph+", "ph-", live, a.errs, b.errs))
+             /\ (b.seg = a.seg /\ e # "sv-" => Delta(a.phd, b.phd, e, "ph+", "ph-", FALSE, a.errs, b.errs))  \* DEPHASE alone is accepted
              \* a skipped statement outside the IF / macro machinery is inert, whatever its arguments are
-             /\ (~a.ifasm /\ g \in {"ps", "da", "insn"} => b.errs = a.errs)
+             /\ (~a.ifasm /\ g \in {"ps", "da", "insn"} => (b.errs = a.errs \/ ev.argc >= AMAX))
 
-TInit == p = Start /\ l = 1
+\* Every event is consumed; an event the table does not allow is reported (TLC prints its index) and the
+\* validation continues from the logged state, so that one run lists all rejected steps.
+TInit == p = Start /\ l = 1 /\ bad = 0
 TNext == /\ l <= Len(TraceLog)
          /\ l' = l + 1
          /\ LET ev == TraceLog[l] IN
-              IF ev.a = "RESET" THEN p' = Start
-              ELSE Allowed(p, ev) /\ p' = Snap(ev)
-Accepted == TLCGet("stats").diameter - 1 = Len(TraceLog)
+              IF ev.a = "RESET" THEN p' = Start /\ bad' = bad
+              ELSE /\ p' = Snap(ev)
+                   /\ IF Allowed(p, ev) THEN bad' = bad
+                      ELSE bad' = bad + 1 /\ PrintT(<<"BAD", ToJson([l |-> l])>>)
+Consumed == TLCGet("stats").diameter - 1 = Len(TraceLog)
 =============================================================================
